@@ -14,7 +14,7 @@ package promise
 //@ ensures (s == Pending) == (result == "PENDING") && (s == Resolved) == (result == "RESOLVED") && (s == Rejected) == (result == "REJECTED") && (s == Canceled) == (result == "REJECTED_CANCELED") && (s == Timedout) == (result == "REJECTED_TIMEDOUT")
 
 //@ func (*State).UnmarshalJSON
-//@ props C14 C20 C01 C02 C03 C04
+//@ props C14 C20 C01 C02 C03 C04 C13
 //@ nopanic C13
 //@ requires s != nil
 //@ ensures result == nil && upper(jsonstr(data)) == "PENDING" ==> *s == Pending
